@@ -914,7 +914,8 @@ def run(ctx):
                 "z None|scalar|list) / random subset (1, all, random size; seeds incl. 0) / crop (centres on half "
                 "pixels, sizes 1..8 incl. odd, clipped and empty); non-trivial = distinct (shape, spacing, nz) "
                 "layouts, distinct (shape, pixels, seed) subsets, non-empty crops, distinct real-theory "
-                "configurations, distinct call sequences")
+                "configurations, distinct call sequences; model [run] vs implementation on sequences of 2-5 calls "
+                "(field / subset / crop / meta / flat) on one image; single-pixel draws over 25*n seeds (coverage)")
     ctx.clauses_proved = [
         "flat index <-> (i,j,l) bijection with ranges for every shape (incl. 1xN, Nx1, volumes) "
         "[flat_unflat, unflat_flat, flat_index_in_range, unflat_in_range]",
